@@ -57,9 +57,17 @@ Subset
                whose spec says `fuel`), `.label` / `.dual` / `<` of opaque objects as declared accessors
   fragments    (S3) declared by a spec in FRAGMENTS: start after the first binding of a variable, run to the end of the
                function, live locals as parameters, several returned variables, fuel, accessors
+  strings /    (S3, networks.py) a `str` parameter (declared in PARAM_SIGS) is a FORMAT TEMPLATE: `t.count("{}")`
+  records      (`pyStrCount`), `t.format(a, …)` / `t.format(*a)` -> the declared opaque constructors `PyName.fmt` /
+               `PyName.fmtStar`; a heterogeneous dict with a fixed set of string keys is a DECLARED record (RECORDS;
+               `sites = {}` gets its declared type from LOCAL_SIGS): `P["f"]`, `P["f"] = v`, `P["f"].append(v)`,
+               `P.setdefault("f", []).append(v)` where the place `P` is `d[k]` or an ALIAS `x = d.setdefault(k, {})`
+               of it (every mutation through `x` is a mutation of `d[k]`; `x`, `k`, `d` must not be re-bound
+               afterwards); `for k in d:` (keys), `sorted(pairs)`, `(x,)`, `if x is not None: …` without else,
+               a variable first bound in BOTH branches of an `if`
 Not in the subset (examples): float arithmetic (`/`, other uses of `int(...)`, `**` with other exponents), bit operations
-`& | ~ << >>`, `.bit_count()`, strings and `str.format`, dicts with heterogeneous values, attribute access that is not
-declared, while without declared fuel, try, break/continue, lambda outside `sort(key=…)`.
+`& | ~ << >>`, `.bit_count()`, other string operations, dicts with heterogeneous values that are not declared records,
+attribute access that is not declared, while without declared fuel, try, break/continue, lambda outside `sort(key=…)`.
 """
 
 import ast
@@ -146,6 +154,20 @@ def UNION(elt):
     return ("union", elt)
 
 
+# (S3, networks.py) strings are seen only as FORMAT TEMPLATES: `t.count("{}")` (-> `pyStrCount`) and `t.format(a, …)` /
+# `t.format(*a)` (-> the DECLARED opaque constructors `PyName.fmt t [a, …]` / `PyName.fmtStar t a`: two formatted names
+# are equal iff template and arguments are); a heterogeneous dict with a fixed set of string keys is a DECLARED record
+STR = ("str",)
+NAME = ("name",)
+REC = ("rec", "PySiteRec")
+RECORDS = {"PySiteRec": {"inds": ("list", NAME), "duals": ("list", ("int",)), "shape": ("list", ("int",)),
+                         "coordination": ("int",), "tags": ("list", NAME)}}
+# declared types of LOCAL variables that start as an empty display (`sites = {}`), per function
+LOCAL_SIGS = {"parse_edges_to_site_info": {"sites": ("dict", ("int",), REC)}}
+# declared parameter types that override what the default value suggests (`phys_dim=2` may also be None)
+PARAM_SIGS = {"parse_edges_to_site_info": {"phys_dim": ("opt", ("int",)), "site_ind_id": STR, "bond_ind_id": STR,
+                                           "site_tag_id": STR}}
+
 # (S3) declared return types (a value of a narrower type is injected: bool -> None|bool by `some`, the sum-typed
 # parameter by its sequence alternative) and functions whose `raise` statements are error points (`Except PyExc …`)
 RETURN_SIGS = {"choose_duals": ("list", ("opt", ("bool",)))}
@@ -201,6 +223,12 @@ def lty(t):
         return "Unit"
     if k == "union":
         return f"(PyArg {lty(t[1])})"
+    if k == "str":
+        return "String"
+    if k == "name":
+        return "PyName"
+    if k == "rec":
+        return t[1]
     if k == "nat":
         return "Nat"
     if k == "except":
@@ -235,7 +263,7 @@ def eq_ok(t):
 
 def inhabited(t):
     """types with a `default` (needed where a raising lookup is made total)"""
-    if t[0] in ("int", "bool", "list", "opt", "dict", "set"):
+    if t[0] in ("int", "bool", "list", "opt", "dict", "set", "rec", "name", "str"):
         return True
     if t[0] == "prod":
         return all(inhabited(x) for x in t[1:])
@@ -358,8 +386,10 @@ def free_loads(stmts):
                 stmts_(s.orelse, set(bound))
             elif isinstance(s, ast.If):
                 expr(s.test, bound)
-                stmts_(s.body, set(bound))
-                stmts_(s.orelse, set(bound))
+                b1, b2 = set(bound), set(bound)
+                stmts_(s.body, b1)
+                stmts_(s.orelse, b2)
+                bound |= (b1 & b2)  # (S3) bound on both paths
             else:
                 for ch in ast.iter_child_nodes(s):
                     if isinstance(ch, ast.stmt):
@@ -391,6 +421,9 @@ class Fn:
         self.raises = False  # (S3) `raise` is an error point: the function returns `Except PyExc …`
         self.ret_decl = None  # (S3) declared return type (RETURN_SIGS)
         self.need_inh = set()  # (S3) opaque object types whose lists are indexed (`[Inhabited ι]`)
+        self.new_in_branches = set()
+        self.aliases = {}  # (S3) alias name -> (dict, key variable), registered where the alias statement is translated
+        self.alias_map = {}  # (S3) alias name -> dict, found syntactically in the whole body
 
     # -- helpers
     def note(self, s):
@@ -445,8 +478,28 @@ class Fn:
             if a.vararg and a.vararg.arg in used:
                 raise U(f"fragment reads *{a.vararg.arg}")
         self.defaults = []  # (parameter, type, lean value): part of the meaning for callers that omit it
+        psig = PARAM_SIGS.get(self.node.name, {}) if not self.cls and not self.fragment else {}
         for p, d in zip(params, defaults):
             t = ann_type(p.annotation)
+            if p.arg in psig and t is None:
+                # (S3) a DECLARED parameter type
+                t = psig[p.arg]
+                self.note(f"parameter `{p.arg}` is declared {lty(t)}")
+                if d is not None:
+                    if not isinstance(d, ast.Constant):
+                        raise U(f"default value `{ast.unparse(d)}` of parameter {p.arg}")
+                    v = d.value
+                    if t == STR and isinstance(v, str):
+                        dv = json.dumps(v, ensure_ascii=False)
+                    elif t == OPT(INT) and v is None:
+                        dv = "none"
+                    elif t == OPT(INT) and isinstance(v, int) and not isinstance(v, bool):
+                        dv = f"(some {lit(v)})"
+                    else:
+                        raise U(f"default value `{ast.unparse(d)}` does not have the declared type of parameter {p.arg}")
+                    self.defaults.append((p.arg, t, dv))
+                sig.append((p.arg, t))
+                continue
             if d is not None and not (isinstance(d, ast.Constant) and (d.value is None or isinstance(d.value, (bool, int)))):
                 raise U(f"default value `{ast.unparse(d)}` of parameter {p.arg}")
             if d is not None and isinstance(d, ast.Constant):
@@ -676,6 +729,9 @@ class Fn:
                 et = tv
                 parts.append(sv)
             return "(" + " ++ ".join(parts) + ")", LIST(et)
+        if isinstance(e, ast.Tuple) and len(e.elts) == 1:
+            v, t = self.expr(e.elts[0], env)  # (S3) `(x,)`: tuples and lists are both List
+            return f"[{v}]", LIST(t)
         if isinstance(e, ast.Tuple):
             if len(e.elts) < 2:
                 raise U(f"tuple display `{ast.unparse(e)}`")
@@ -689,6 +745,10 @@ class Fn:
                 raise U(f"heterogeneous list `{ast.unparse(e)}`")
             return "[" + ", ".join(p[0] for p in parts) + "]", LIST(parts[0][1])
         if isinstance(e, ast.Subscript):
+            fld = self.rec_field(e, env)
+            if fld is not None:
+                (d, k), f, ft = fld  # (S3) `sites[k]["f"]`: the field of the declared record (KeyError -> default)
+                return f"((pyDictGetItem {d} {k}).{f}.getD default)", ft
             v, t = self.expr(e.value, env)
             if isinstance(e.slice, ast.Slice):
                 sl = e.slice
@@ -794,6 +854,10 @@ class Fn:
             s, t = self.comp(it, env)
             return s, t[1]
         s, t = self.expr(it, env)
+        if t[0] == "dict" and isinstance(it, ast.Name) and not has_unk(t):
+            # (S3) `for k in d:` — the keys, in insertion order, as they are when the loop starts (the translated loops
+            # only replace values, which CPython allows during iteration)
+            return f"({s}.map (fun p => p.1))", t[1]
         if t[0] == "list":
             if has_unk(t):
                 raise U(f"iteration over a list of unknown element type `{ast.unparse(it)}`")
@@ -859,6 +923,11 @@ class Fn:
             raise U(f"`{name}` is re-bound at module level, it is not the built-in")
         if any(isinstance(a, ast.Starred) for a in args):
             raise U(f"star-arguments in `{ast.unparse(e)}`")
+        if name == "sorted" and len(args) == 1 and not e.keywords:
+            xs, tx = self.iterable(args[0], env)  # (S3) `sorted(pairs)`: tuple order, stable
+            if tx != PAIR:
+                raise U(f"`sorted` without key on elements of type {lty(tx)}")
+            return f"(pySortedByLex (fun (x : (Int × Int)) => x) {xs})", LIST(PAIR)
         if name == "sorted":
             if (
                 len(args) == 1
@@ -1007,6 +1076,18 @@ class Fn:
             return self.fn_call(pn, t, e, env)
         if e.keywords:
             raise U(f"method call `{ast.unparse(e)}`")
+        if isinstance(f.value, ast.Name) and env.get(f.value.id) == STR:
+            t_ = f.value.id
+            if (f.attr == "count" and len(e.args) == 1 and isinstance(e.args[0], ast.Constant)
+                    and isinstance(e.args[0].value, str)):
+                return f"(pyStrCount {t_} {json.dumps(e.args[0].value)})", INT
+            if f.attr == "format" and len(e.args) == 1 and isinstance(e.args[0], ast.Starred):
+                self.note(f"`{ast.unparse(e)}` is the declared opaque constructor `PyName.fmtStar` (template, the unpacked argument)")
+                return f"(PyName.fmtStar {t_} {self.as_int(e.args[0].value, env)})", NAME
+            if f.attr == "format" and e.args and not any(isinstance(a, ast.Starred) for a in e.args):
+                self.note(f"`{ast.unparse(e)}` is the declared opaque constructor `PyName.fmt` (template, arguments)")
+                return f"(PyName.fmt {t_} [{', '.join(self.as_int(a, env) for a in e.args)}])", NAME
+            raise U(f"string method `{ast.unparse(e)}`")
         if isinstance(f.value, ast.Name) and f.value.id in env and env[f.value.id][0] == "dict":
             d, t = f.value.id, env[f.value.id]
             if has_unk(t):
@@ -1027,6 +1108,85 @@ class Fn:
             if f.attr == "setdefault":
                 raise U(f"`{ast.unparse(e)}`: `setdefault` is translated as a statement or once on the right of an assignment")
         raise U(f"method call `{ast.unparse(e)}`")
+
+    # -- (S3) declared records stored in a dict
+    def rec_place(self, node, env):
+        """`d[k]` for a dict `d` of declared records, or an alias `x = d.setdefault(k, {})` -> (d, lean key)"""
+        if isinstance(node, ast.Name) and node.id in self.aliases:
+            d, key = self.aliases[node.id]
+            return d, key
+        if (isinstance(node, ast.Subscript) and isinstance(node.value, ast.Name) and not isinstance(node.slice, ast.Slice)
+                and env.get(node.value.id, ("?",))[0] == "dict" and env[node.value.id][2][0] == "rec"):
+            k, tk = self.expr(node.slice, env)
+            if tk != env[node.value.id][1]:
+                raise U(f"key of type {lty(tk)} in `{ast.unparse(node)}`")
+            return node.value.id, k
+        return None
+
+    def rec_field(self, node, env):
+        """`P["f"]` with P a record place -> ((d, key), field, field type)"""
+        if (isinstance(node, ast.Subscript) and isinstance(node.slice, ast.Constant) and isinstance(node.slice.value, str)):
+            pl = self.rec_place(node.value, env)
+            if pl is not None:
+                fields = RECORDS[env[pl[0]][2][1]]
+                if node.slice.value not in fields:
+                    raise U(f"`{ast.unparse(node)}`: `{node.slice.value}` is not a declared key of the record")
+                return pl, node.slice.value, fields[node.slice.value]
+        return None
+
+    def rec_store(self, pl, f, newval, env):
+        d, k = pl
+        return f"let {d} : {lty(env[d])} := pyDictSet {d} {k} (let r := pyDictGetItem {d} {k}; {{ r with {f} := some ({newval}) }})"
+
+    def rec_stmt(self, s, env):
+        """statements that mutate a declared record in place -> one `let` line, or None"""
+        if isinstance(s, ast.Expr) and isinstance(s.value, ast.Call) and isinstance(s.value.func, ast.Attribute):
+            c = s.value
+            if c.func.attr == "append" and len(c.args) == 1 and not c.keywords:
+                tgt = c.func.value
+                # `P.setdefault("f", []).append(v)`
+                if (isinstance(tgt, ast.Call) and isinstance(tgt.func, ast.Attribute) and tgt.func.attr == "setdefault"
+                        and len(tgt.args) == 2 and not tgt.keywords and isinstance(tgt.args[0], ast.Constant)
+                        and isinstance(tgt.args[0].value, str) and isinstance(tgt.args[1], ast.List) and not tgt.args[1].elts):
+                    pl = self.rec_place(tgt.func.value, env)
+                    if pl is not None:
+                        f = tgt.args[0].value
+                        fields = RECORDS[env[pl[0]][2][1]]
+                        if f not in fields or fields[f][0] != "list":
+                            raise U(f"`{ast.unparse(s)}`: `{f}` is not a declared list-valued key of the record")
+                        v, tv = self.expr(c.args[0], env)
+                        if tv != fields[f][1]:
+                            raise U(f"`{ast.unparse(s)}`: item of type {lty(tv)} appended to {lty(fields[f])}")
+                        return self.rec_store(pl, f, f"(r.{f}.getD []) ++ [{v}]", env)
+                # `P["f"].append(v)`  (KeyError when the key is absent -> default)
+                fld = self.rec_field(tgt, env)
+                if fld is not None:
+                    pl, f, ft = fld
+                    v, tv = self.expr(c.args[0], env)
+                    if ft[0] != "list" or tv != ft[1]:
+                        raise U(f"`{ast.unparse(s)}`: item of type {lty(tv)} appended to {lty(ft)}")
+                    return self.rec_store(pl, f, f"(r.{f}.getD default) ++ [{v}]", env)
+        if isinstance(s, ast.Assign) and len(s.targets) == 1:
+            fld = self.rec_field(s.targets[0], env)
+            if fld is not None:  # `P["f"] = v`
+                pl, f, ft = fld
+                v, tv = self.expr(s.value, env)
+                if tv != ft:
+                    raise U(f"`{ast.unparse(s)}`: value of type {lty(tv)} stored under a key declared {lty(ft)}")
+                return self.rec_store(pl, f, v, env)
+        return None
+
+    @staticmethod
+    def root_name(node):
+        """the variable at the root of `x.a(...)[...]...`"""
+        while True:
+            if isinstance(node, (ast.Subscript, ast.Attribute)):
+                node = node.value
+            elif isinstance(node, ast.Call):
+                node = node.func
+            else:
+                break
+        return node.id if isinstance(node, ast.Name) else None
 
     # -- statements
     @staticmethod
@@ -1052,15 +1212,21 @@ class Fn:
             if n not in out:
                 out.append(n)
 
+        amap = getattr(self, "alias_map", {})
         for s in stmts:
             if isinstance(s, ast.Assign):
                 for c in ast.walk(s.value):
                     if (isinstance(c, ast.Call) and isinstance(c.func, ast.Attribute) and c.func.attr == "setdefault"
                             and isinstance(c.func.value, ast.Name)):
-                        add(c.func.value.id)
+                        add(amap.get(c.func.value.id, c.func.value.id))
+                if len(s.targets) == 1 and isinstance(s.targets[0], ast.Name) and s.targets[0].id in amap:
+                    continue  # (S3) an alias is not a variable of the translation
                 for tg in s.targets:
                     if isinstance(tg, ast.Subscript) and isinstance(tg.value, ast.Name):
-                        add(tg.value.id)  # `d[k] = v` re-binds d
+                        add(amap.get(tg.value.id, tg.value.id))  # `d[k] = v` re-binds d
+                        continue
+                    if isinstance(tg, ast.Subscript) and self.root_name(tg) is not None:
+                        add(amap.get(self.root_name(tg), self.root_name(tg)))  # (S3) `d[k]["f"] = v` re-binds d
                         continue
                     for n in ast.walk(tg):
                         if isinstance(n, ast.Name):
@@ -1079,7 +1245,9 @@ class Fn:
                     add(n)
             elif isinstance(s, ast.Expr) and isinstance(s.value, ast.Call) and isinstance(s.value.func, ast.Attribute):
                 if isinstance(s.value.func.value, ast.Name):
-                    add(s.value.func.value.id)
+                    add(amap.get(s.value.func.value.id, s.value.func.value.id))
+                elif self.root_name(s.value) is not None:
+                    add(amap.get(self.root_name(s.value), self.root_name(s.value)))  # (S3) `d[k]["f"].append(v)`
             elif isinstance(s, ast.If):
                 for n in self.assigned(s.body) + self.assigned(s.orelse):
                     add(n)
@@ -1154,6 +1322,34 @@ class Fn:
             return self.block(rest, env, tail)
         if isinstance(s, ast.While):
             return self.while_stmt(s, rest, env, tail)
+        line = self.rec_stmt(s, env) if self.aliases or any(t[0] == "dict" and t[2][0] == "rec" for t in env.values() if len(t) == 3) else None
+        if line is not None:
+            return [line] + self.block(rest, env, tail)
+        if (isinstance(s, ast.Assign) and len(s.targets) == 1 and isinstance(s.targets[0], ast.Name)
+                and s.targets[0].id in self.alias_map):
+            # (S3) `x = d.setdefault(k, {})`: x is an ALIAS of the record stored at d[k]; every later mutation through x
+            # is a mutation of d[k] (the key variable and x are not re-bound afterwards; `{}` is fresh, so no other key
+            # shares the object)
+            x, c = s.targets[0].id, s.value
+            d, kn = c.func.value.id, c.args[0].id
+            if env.get(d, ("?",))[0] != "dict" or env[d][2][0] != "rec" or env.get(kn) != env[d][1]:
+                raise U(f"`{ast.unparse(s)}`: not a dict of declared records")
+            for st in rest:
+                for n in ast.walk(st):
+                    if isinstance(n, ast.Name) and isinstance(n.ctx, ast.Store) and n.id in (x, kn, d):
+                        raise U(f"`{n.id}` is re-bound after the alias `{ast.unparse(s)}`")
+            self.aliases[x] = (d, kn)
+            self.note(f"`{ast.unparse(s)}`: `{x}` is an alias of the record `{d}[{kn}]`")
+            return [f"let {d} : {lty(env[d])} := (pyDictSetdefault {d} {kn} ({{}} : {env[d][2][1]})).1"] + self.block(rest, env, tail)
+        if (isinstance(s, ast.Assign) and len(s.targets) == 1 and isinstance(s.targets[0], ast.Name)
+                and isinstance(s.value, ast.Dict) and not s.value.keys and not self.cls and not self.fragment
+                and s.targets[0].id in LOCAL_SIGS.get(self.node.name, {})):
+            x = s.targets[0].id  # (S3) an empty display with a DECLARED type
+            t = LOCAL_SIGS[self.node.name][x]
+            self.note(f"the local variable `{x}` is declared {lty(t)}")
+            env2 = dict(env)
+            env2[x] = t
+            return [f"let {x} : {lty(t)} := []"] + self.block(rest, env2, tail)
         if isinstance(s, ast.Assign):
             if len(s.targets) != 1:
                 raise U("chained assignment")
@@ -1413,6 +1609,28 @@ class Fn:
         ):
             if not (isinstance(t.left, ast.Name) and env.get(t.left.id, ("?",))[0] == "opt"):
                 raise U(f"`{ast.unparse(t)}` on something that is not an Optional parameter")
+            if (isinstance(t.ops[0], ast.IsNot) and not s.orelse
+                    and not self.contains(s.body, (ast.Return, ast.Raise, ast.Break, ast.Continue))):
+                # (S3) `if x is not None: body` (no else, no exit): the assigned variables are threaded; inside, x is unwrapped
+                x = t.left.id
+                if x in self.assigned(s.body):
+                    raise U(f"`{x}` is assigned inside `if {ast.unparse(t)}:`")
+                names = self.assigned(s.body)
+                fl_rest = free_loads(rest)
+                names = [n for n in names if n in env or n in fl_rest]
+                if not names:
+                    return self.block(rest, env, tail)
+                envs = dict(env)
+                envs[x] = env[x][1]
+                env = self.refine_env(names, env, lambda: self.block(s.body, envs, "()"))
+                envs = dict(env)
+                envs[x] = env[x][1]
+                pat, st = self.state(names, env)
+                return (
+                    [f"let {pat} : {lty(st)} :=", f"  match {x} with", f"  | none => {pat}", f"  | some {x} =>"]
+                    + self.ind(self.paren(self.block(s.body, envs, pat)), 4)
+                    + self.block(rest, env, tail)
+                )
             if isinstance(t.ops[0], ast.IsNot) or s.orelse or not self.always_returns(s.body) or tail is not None:
                 raise U(f"`if {ast.unparse(t)}:` is only translated in the form `if x is None: …return`")
             x = t.left.id
@@ -1448,6 +1666,24 @@ class Fn:
         names = self.assigned(s.body + s.orelse)
         if not names:
             return self.block(rest, env, tail)
+        # (S3) a variable first bound by a top-level assignment in BOTH branches is defined afterwards; its type is that
+        # of the assigned expression (the same in both branches)
+        for n in names:
+            if n in env:
+                continue
+            ts = []
+            for br in (s.body, s.orelse):
+                for st_ in br:
+                    if (isinstance(st_, ast.Assign) and len(st_.targets) == 1 and isinstance(st_.targets[0], ast.Name)
+                            and st_.targets[0].id == n):
+                        ts.append(self.expr(st_.value, env)[1])
+                        break
+                    if n in free_loads([st_]) or n in _safe_assigned(self, [st_]):
+                        break
+            if len(ts) == 2 and ts[0] == ts[1] and not has_unk(ts[0]):
+                env = dict(env)
+                env[n] = ts[0]
+                self.new_in_branches.add(n)
         env = self.refine_env(names, env, lambda: (self.block(s.body, env, "()"), self.block(s.orelse, env, "()")))
         pat, st = self.state(names, env)
         thn = self.block(s.body, env, pat)
@@ -1571,6 +1807,14 @@ class Fn:
                     self.note(f"decorator `@{ds}` ignored: the function is pure on the translated types (memoisation is unobservable)")
             else:
                 raise U(f"decorator @{ds}")
+        for st in body_stmts:
+            for n in ast.walk(st):
+                if (isinstance(n, ast.Assign) and len(n.targets) == 1 and isinstance(n.targets[0], ast.Name)
+                        and isinstance(n.value, ast.Call) and isinstance(n.value.func, ast.Attribute)
+                        and n.value.func.attr == "setdefault" and isinstance(n.value.func.value, ast.Name)
+                        and len(n.value.args) == 2 and not n.value.keywords and isinstance(n.value.args[0], ast.Name)
+                        and isinstance(n.value.args[1], ast.Dict) and not n.value.args[1].keys):
+                    self.alias_map[n.targets[0].id] = n.value.func.value.id
         self.imported = set()
         if self.spec and self.spec.get("raises") or (not self.fragment and not self.cls and self.node.name in RAISES):
             self.raises = True
@@ -1582,6 +1826,7 @@ class Fn:
         for it in range(5):  # later passes use the element types refined in the earlier ones
             self.ret_types, self.fresh, self.dirty = [], 0, False
             self.imported = set()
+            self.aliases = {}
             try:
                 lines = self.block(body_stmts, env, None)
             except U:
